@@ -2,6 +2,8 @@ package main
 
 import (
 	"fmt"
+	"io"
+	"log"
 	"os"
 )
 
@@ -10,9 +12,12 @@ func main() {
 		fmt.Fprintln(os.Stderr, "usage: vh <mode> ...")
 		os.Exit(2)
 	}
+	log.SetOutput(io.Discard) // nodis logs every recovered panic
 	switch os.Args[1] {
 	case "codec":
 		codecMain(os.Args[2:])
+	case "trace":
+		traceMain(os.Args[2:])
 	default:
 		fmt.Fprintln(os.Stderr, "unknown mode", os.Args[1])
 		os.Exit(2)
